@@ -327,3 +327,107 @@ pub fn run_c04(max_len: usize) -> SelReport {
     }
     rep
 }
+
+// ---- C05: scoped text handlers and end-tag handlers, also inside removed content ----
+#[derive(Clone, Copy, PartialEq, Debug)]
+pub enum Removal { None, Remove, SetInner, RemoveKeep }
+
+/// Oracle: walks the token list; returns (for every text position the expected "inside an open `a`" flag,
+/// for every End token the ordinals of the start tags it closes, innermost first)
+fn scope_oracle(doc: &[Tok], foreign: &[bool]) -> (Vec<bool>, Vec<Vec<usize>>) {
+    let mut open: Vec<(usize, String)> = vec![];
+    let mut text_in_a = vec![];
+    let mut closes = vec![];
+    let mut ord = 0usize;
+    for t in doc {
+        match t {
+            Tok::Start(s) => {
+                let (name, _attrs, selfc) = parse_start(s);
+                let lname = name.to_ascii_lowercase();
+                let is_foreign = foreign.get(ord).copied().unwrap_or(false);
+                let closed_now = if is_foreign { selfc } else { VOID.contains(&lname.as_str()) };
+                if !closed_now { open.push((ord, lname)); }
+                ord += 1;
+                closes.push(vec![]);
+            }
+            Tok::End(s) => {
+                let name = s[2..s.len() - 1].to_ascii_lowercase();
+                let mut c = vec![];
+                if let Some(pos) = open.iter().rposition(|(_, n)| *n == name) { while open.len() > pos { c.push(open.pop().unwrap().0); } }
+                closes.push(c);
+            }
+        }
+        text_in_a.push(open.iter().any(|(_, n)| n == "a"));
+    }
+    (text_in_a, closes)
+}
+
+pub fn check_scoping(doc: &[Tok], removal: Removal, rep: &mut SelReport) {
+    // document: each token followed by a distinct text "t<i>;"
+    let mut bytes = vec![];
+    for (i, t) in doc.iter().enumerate() { match t { Tok::Start(s) | Tok::End(s) => bytes.extend_from_slice(s.as_bytes()) } bytes.extend_from_slice(format!("t{i};").as_bytes()); }
+    let ev: Rc<RefCell<Vec<String>>> = Rc::new(RefCell::new(vec![]));
+    let info = Rc::new(RefCell::new(vec![]));
+    let ordinal = Rc::new(RefCell::new(0usize));
+    let (e1, e2, e3, i1, o1) = (ev.clone(), ev.clone(), ev.clone(), info.clone(), ordinal.clone());
+    let acc = Rc::new(RefCell::new(String::new()));
+    let a2 = acc.clone();
+    let mut settings = Settings::new()
+        .append_element_content_handler(element!("*", move |el| {
+            let n = { let mut o = o1.borrow_mut(); *o += 1; *o - 1 };
+            i1.borrow_mut().push(el.namespace_uri() != "http://www.w3.org/1999/xhtml");
+            e1.borrow_mut().push(format!("S{n}"));
+            let e4 = e2.clone();
+            if el.can_have_content() { el.on_end_tag(lol_html::end_tag!(move |_e| { e4.borrow_mut().push(format!("E{n}")); Ok(()) }))?; }
+            Ok(())
+        }))
+        .append_element_content_handler(lol_html::text!("a", move |t| {
+            a2.borrow_mut().push_str(t.as_str());
+            if t.last_in_text_node() { let s = std::mem::take(&mut *a2.borrow_mut()); e3.borrow_mut().push(format!("T{s}")); }
+            Ok(())
+        }));
+    if removal != Removal::None {
+        settings = settings.append_element_content_handler(element!("b", move |el| {
+            match removal { Removal::Remove => el.remove(), Removal::SetInner => el.set_inner_content("[i]", lol_html::html_content::ContentType::Html), Removal::RemoveKeep => el.remove_and_keep_content(), Removal::None => {} }
+            Ok(())
+        }));
+    }
+    rep.cases += 1;
+    {
+        let mut rw = HtmlRewriter::new(settings, |_: &[u8]| {});
+        if rw.write(&bytes).is_err() || rw.end().is_err() { if rep.violations.len() < 5 { rep.violations.push(viol("rewriter failed", &bytes, "", "")); } return; }
+    }
+    let foreign = info.borrow().clone();
+    let (text_in_a, closes) = scope_oracle(doc, &foreign);
+    // expected event list
+    let mut want: Vec<String> = vec![];
+    let mut ord = 0;
+    for (i, t) in doc.iter().enumerate() {
+        match t { Tok::Start(_) => { want.push(format!("S{ord}")); ord += 1; } Tok::End(_) => { for c in &closes[i] { want.push(format!("E{c}")); } } }
+        if text_in_a[i] { want.push(format!("Tt{i};")); }
+    }
+    let got = ev.borrow().clone();
+    if got != want && rep.violations.len() < 5 {
+        rep.violations.push(viol("scoped text / end-tag handlers did not fire exactly once, in document order, for exactly their scope", &bytes, &format!("text!(\"a\"), on_end_tag on every element, `b` elements: {:?}", removal), &format!("got {:?} want {:?}", got, want)));
+    }
+}
+
+pub fn run_c05(max_len: usize) -> SelReport {
+    let mut rep = SelReport { cases: 0, selectors: 0, unsupported: vec![], violations: vec![], not_compound: vec![] };
+    let mut doc: Vec<Tok> = vec![];
+    fn rec(doc: &mut Vec<Tok>, max_len: usize, rep: &mut SelReport) {
+        if !doc.is_empty() { for r in [Removal::None, Removal::Remove, Removal::SetInner, Removal::RemoveKeep] { check_scoping(doc, r, rep); } }
+        if doc.len() == max_len || rep.violations.len() >= 5 { return; }
+        for t in TOKS { doc.push(*t); rec(doc, max_len, rep); doc.pop(); }
+    }
+    rec(&mut doc, max_len, &mut rep);
+    for d in SEED_DOCS { for r in [Removal::None, Removal::Remove, Removal::SetInner, Removal::RemoveKeep] { check_scoping(d, r, &mut rep); } }
+    let mut x: u64 = 0x2545F4914F6CDD1D;
+    for _ in 0..(if max_len >= 5 { 4000 } else { 1000 }) {
+        let mut next = || { x = x.wrapping_mul(6364136223846793005).wrapping_add(1442695040888963407); (x >> 33) as usize };
+        let len = 6 + next() % 7;
+        let d: Vec<Tok> = (0..len).map(|_| TOKS[next() % TOKS.len()]).collect();
+        for r in [Removal::None, Removal::Remove, Removal::SetInner, Removal::RemoveKeep] { if rep.violations.len() < 5 { check_scoping(&d, r, &mut rep); } }
+    }
+    rep
+}
